@@ -173,6 +173,11 @@ func isLockWait(status string) bool {
 func statuses() map[int64]string {
 	buf := make([]byte, 1<<20)
 	n := runtime.Stack(buf, true)
+	for n == len(buf) {
+		// the dump did not fit: a goroutine missing from it would be taken for gone
+		buf = make([]byte, 2*len(buf))
+		n = runtime.Stack(buf, true)
+	}
 	out := map[int64]string{}
 	for _, m := range headerRe.FindAllStringSubmatch(string(buf[:n]), -1) {
 		id, _ := strconv.ParseInt(m[1], 10, 64)
@@ -202,6 +207,18 @@ func (w *world) stableLockWait(t *txRun) bool {
 			return false
 		}
 	}
+	// nobody else in the process may be able to run either (a helper goroutine that holds one of the
+	// short-lived mutexes would release it in a moment): apart from the calling scheduler goroutine, every
+	// goroutine has to be parked
+	me := goidOf()
+	for id, s := range st {
+		if id == me {
+			continue
+		}
+		if strings.HasPrefix(s, "running") || strings.HasPrefix(s, "runnable") || strings.HasPrefix(s, "syscall") || strings.HasPrefix(s, "sleep") {
+			return false
+		}
+	}
 	return true
 }
 
@@ -215,17 +232,19 @@ func (w *world) settle(t *txRun) (blocked bool) {
 		default:
 		}
 		if w.stableLockWait(t) {
-			// confirm after giving everybody a chance to run
-			for k := 0; k < 3; k++ {
+			// confirm three more times, giving everybody a chance to run in between
+			confirmed := true
+			for k := 0; k < 3 && confirmed; k++ {
 				runtime.Gosched()
-				time.Sleep(100 * time.Microsecond)
+				time.Sleep(300 * time.Microsecond)
+				select {
+				case <-t.parked:
+					return false
+				default:
+				}
+				confirmed = w.stableLockWait(t)
 			}
-			select {
-			case <-t.parked:
-				return false
-			default:
-			}
-			if w.stableLockWait(t) {
+			if confirmed {
 				return true
 			}
 		}
